@@ -541,6 +541,80 @@ AT_DURS = [[([0], "s")], [([1], "s")], [([2], "s")], [([1], "m")], [([9, 0], "s"
            [([1], "h"), ([2], "m"), ([3], "s")], [([1], "d"), ([1, 2], "h")], [([0], "m"), ([0, 0], "s")]]
 
 
+NEAR_D_US = [0, 1, 1000, 500000, 999000, 999999, 1000000, 1000001, 2000000]   # a - b in microseconds
+
+
+def form_of_instant(rng, ns, tz_default, ztab_ok, allow_date=True):
+    """a documented form (random layout / fraction length / zone spelling) that denotes instant [ns]
+    (a multiple of 1 us) when --tz-offset is [tz_default] seconds"""
+    r = rng.random()
+    if r < 0.35:
+        z, off = None, tz_default
+    elif r < 0.85:
+        off = rng.choice([0, 3600, -3600, 19800, -12600, 20700, 45900, -34200, 50400, -43200, 900, -2700])
+        z = "num"
+    else:
+        name, v = rng.choice(ztab_ok)
+        off = tz_secs(v)
+        z = ("name", name)
+    loc = ns + off * 10 ** 9
+    secs, frac = divmod(loc, 10 ** 9)
+    days, sod = divmod(secs, 86400)
+    y, m, d = civil_from_days(days)
+    us = frac // 1000
+    if z is None and allow_date and sod == 0 and us == 0 and rng.random() < 0.6:
+        return ("date", rng.choice(list(DL)), y, m, d)
+    if us == 0:
+        fr = rng.choice([None, None, ("ms", 0), ("us", 0)])
+    elif us % 1000 == 0:
+        fr = rng.choice([("ms", us // 1000), ("us", us)])
+    else:
+        fr = ("us", us)
+    l = rng.choice(LAYOUTS)
+    sp = rng.choice(space_options(l))
+    if z == "num":
+        a = abs(off) // 60
+        st = rng.choice(["ZPlain", "ZColon"] + (["ZHour"] if a % 60 == 0 else []))
+        zz = ("num", sp, st, off < 0, a // 60, a % 60)
+    elif z is None:
+        zz = None
+    else:
+        zz = ("name", sp, z[1])
+    return ("dt", l, y, m, d, sod // 3600, sod // 60 % 60, sod % 60, fr, zz)
+
+
+def gen_near_pairs(rng, reps, ztab_ok):
+    """pairs of bounds AROUND each other at every scale: a = b + d for d = 0, 1 us, 1 ms, 500 ms, 999 ms, 999.999 ms,
+    exactly 1 s, 1 s + 1 us, 2 s — given as (-a a, -b b) [rejected for d > 0] and as (-a b, -b a) [accepted]; every bound in a
+    random documented form / zone; also a local midnight against the instant just before it (bare date vs fraction),
+    and the '@' forms that give an inversion of exactly 0 / 1 s.  -> list of (fa, fb, tzs, kind)"""
+    out = []
+    for _ in range(reps):
+        for d_us in NEAR_D_US:
+            for variant in ("random", "midnight"):
+                tzs = rng.choice(TZ_C)
+                tz = tz_secs(tzs)
+                if variant == "midnight":
+                    day = rng.randrange(730, 46000)                 # 1972 .. 2095
+                    a_ns = (day * 86400 - tz) * 10 ** 9             # 00:00:00 in the --tz-offset zone
+                    b_ns = a_ns - d_us * 1000
+                else:
+                    b_ns = rng.randrange(63072000, 4039372800) * 10 ** 9 + rng.choice([0, 500000, 999999, 1, 123456, 100000, 999000]) * 1000
+                    a_ns = b_ns + d_us * 1000
+                fa = form_of_instant(rng, a_ns, tz, ztab_ok)
+                fb = form_of_instant(rng, b_ns, tz, ztab_ok)
+                out.append((fa, fb, tzs, "near-pair-inverted" if d_us > 0 else "near-pair-equal"))
+                out.append((fb, fa, tzs, "near-pair-ordered"))
+        # '@' forms: the other bound with a fraction, D = 0 s / 1 s in the rejecting direction
+        for items, kind in (([([0], "s")], "near-pair-at-equal"), ([([1], "s")], "near-pair-at-inverted")):
+            tzs = rng.choice(TZ_C)
+            x_ns = rng.randrange(63072000, 4039372800) * 10 ** 9 + rng.choice([0, 500000, 999999, 1]) * 1000
+            x = form_of_instant(rng, x_ns, tz_secs(tzs), ztab_ok)
+            out.append((x, ("rel", True, True, items), tzs, kind))      # -a X -b @-D : b = x - D
+            out.append((("rel", True, False, items), x, tzs, kind))     # -a @+D -b X : a = x + D
+    return out
+
+
 def gen_at_fraction(rng, reps):
     """'-a X -b @+D' and '-b X -a @-D' where X carries a 3- or 6-digit fraction"""
     out = []
@@ -685,6 +759,9 @@ def run(ctx):
     ccases.append((("rel", False, True, [([1], "w"), ([2, 2], "h")]), ("rel", False, False, [([3, 0], "s")]), "+00:00", True, "help-example"))
     for fa, fb, kind in gen_at_fraction(rng, 1 if quick else 6):
         ccases.append((fa, fb, rng.choice(TZ_C), True, kind))
+    near = gen_near_pairs(rng, 3 if quick else 40, [(k, v) for k, v in ztab if v])
+    for fa, fb, tzs, kind in near:
+        ccases.append((fa, fb, tzs, True, kind))
     n_pairs = 150 if quick else 3000
     for _ in range(n_pairs):       # pairs: order, both '@', after > before, '@' chains
         tzs = rng.choice(TZ_C)
@@ -930,6 +1007,8 @@ def run(ctx):
         model_disagreements=model_dis, spec_failures=spec_fail, near_miss_failures=nm_fail,
         subsecond_probe_runs=sub_checked, subsecond_failures=sub_fail,
         at_fraction_pairs_probed=at_checked, at_fraction_probe_runs=2 * at_checked, at_fraction_failures=at_fail,
+        near_pairs=len(near), near_pair_kinds={k: sum(1 for c in near if c[3] == k) for k in sorted(set(c[3] for c in near))},
+        near_pair_deltas_us=NEAR_D_US,
         zone_names_every=len(name_all), epoch_long_digit_strings=sum(1 for f in absf if f[0] == "epoch" and len(f[1]) > 12),
         extended_strings=len(ext), repeated_unit_strings=sum(1 for a, b in ext for x in (a, b) if x and rel_last_counts(x.lstrip("@")) is not None and len(re.findall(r"[smhdw]", x)) != len(set(re.findall(r"[smhdw]", x)))),
         language_witnesses=len(EXTRAS) + len(OUTSIDE), language_witness_disagreements=wit_bad, sum_overflow_panics=panics)
